@@ -353,12 +353,27 @@ void property(const pbt::Tape& t, pbt::Ctx& ctx) {
         // ------------------------------------------------------------------ ContactTrackerSubsystem, both insertion orders (first configuration only)
         if (ui == 1 && cutoff == 0) {
             Result sub[2]; bool okSub = true; V3 nG[2], oG[2]; std::set<int> fa[2], fb[2]; int ncon[2] = {0, 0};
+            // Every surface sits on its body through a generated placement X_BS (general rotation + translation; identity when the tape
+            // word is 0 mod 8), the body pose compensating so that the surface's world pose is still X_GS. Meshes are additionally made
+            // OFF-CENTRE: vertices shifted by 1..5 mesh radii in the mesh frame (bounding-sphere centre far from the frame origin), again
+            // compensated in the pose; face numbering is unchanged, so the world-frame reference and the tracker result R stay valid.
+            struct Placed { std::shared_ptr<ContactGeometry> geo; Transform X_BS, X_GB; };
+            uint32_t pseed = t[ui].size() > 23 ? t[ui][23] : 0; Rng prng(pseed); const bool plainPlacement = pseed % 8u == 0;
+            auto place = [&](const Shape& S, const Transform& XGS) { Placed P; P.geo = S.geo; Transform XGSp = XGS;
+                if (!plainPlacement) { 
+                    if (S.type == 4 && !fineCase) { Vec3 d(prng.sym(), prng.sym(), prng.sym()); if (d.norm() < 1e-3) d = Vec3(0, 0, 1); Vec3 o = (1 + 4 * prng.uni()) * S.L * (d / d.norm());
+                        Array_<Vec3> V; for (auto& v : S.gm.V) V.push_back(v + o); Array_<int> I; for (auto& tr : S.gm.tris()) for (int k = 0; k < 3; ++k) I.push_back(tr[k]);
+                        P.geo.reset(new ContactGeometry::TriangleMesh(V, I)); XGSp = XGS * Transform(Rotation(), -o); ctx.label("mesh:off-centre(bounding-sphere centre far from frame origin)"); }
+                    Vec3 ax(prng.sym(), prng.sym(), prng.sym()); if (ax.norm() < 1e-3) ax = Vec3(0, 0, 1); double psc = S.type == 0 ? 1.0 : 2 * S.size();
+                    P.X_BS = Transform(Rotation(3.1 * prng.sym(), UnitVec3(ax)), psc * Vec3(prng.sym(), prng.sym(), prng.sym())); ctx.label("surface:rotated-placement"); }
+                const Transform X_SB = ~P.X_BS; P.X_GB = XGSp * X_SB; return P; };
+            const Placed PA = place(S1, X1), PB = place(S2, X2);
             for (int order = 0; order < 2 && okSub; ++order) {
                 MultibodySystem sys; SimbodyMatterSubsystem matter(sys); ContactTrackerSubsystem tracker(sys);
                 Body::Rigid bA(MassProperties(1, Vec3(0), Inertia(1))), bB(MassProperties(1, Vec3(0), Inertia(1)));
-                bA.addContactSurface(Transform(), ContactSurface(S1.g(), ContactMaterial(1e6, 0.1, 0.5, 0.5, 0.1))); bB.addContactSurface(Transform(), ContactSurface(S2.g(), ContactMaterial(1e6, 0.1, 0.5, 0.5, 0.1)));
-                if (order == 0) { MobilizedBody::Weld a(matter.Ground(), X1, bA, Transform()); MobilizedBody::Weld b(matter.Ground(), X2, bB, Transform()); }
-                else { MobilizedBody::Weld b(matter.Ground(), X2, bB, Transform()); MobilizedBody::Weld a(matter.Ground(), X1, bA, Transform()); }
+                bA.addContactSurface(PA.X_BS, ContactSurface(*PA.geo, ContactMaterial(1e6, 0.1, 0.5, 0.5, 0.1))); bB.addContactSurface(PB.X_BS, ContactSurface(*PB.geo, ContactMaterial(1e6, 0.1, 0.5, 0.5, 0.1)));
+                if (order == 0) { MobilizedBody::Weld a(matter.Ground(), PA.X_GB, bA, Transform()); MobilizedBody::Weld b(matter.Ground(), PB.X_GB, bB, Transform()); }
+                else { MobilizedBody::Weld b(matter.Ground(), PB.X_GB, bB, Transform()); MobilizedBody::Weld a(matter.Ground(), PA.X_GB, bA, Transform()); }
                 State st = sys.realizeTopology(); sys.realize(st, Stage::Position); const ContactSnapshot& snap = tracker.getActiveContacts(st); ncon[order] = snap.getNumContacts();
                 if (!ctx.check(ncon[order] <= 1, "ContactTrackerSubsystem reports " + std::to_string(ncon[order]) + " contacts for one pair of surfaces")) return;
                 if (ncon[order] == 1) { const Contact& c = snap.getContact(0); ContactSurfaceIndex i1 = c.getSurface1(), i2 = c.getSurface2();
@@ -429,7 +444,7 @@ pbt::Config config() {
         ctx.desc << "ellipsoids (5,1.32,2.78) and (3.19,0.92,1.30) overlapping by 1.45: reported contact normal differs from the surface-1 normal at the reported contact point by " << dn << ", the point's implicit value is " << f << "\n";
         ctx.check(dn < 1e-6 && std::fabs(f) < 1e-7, "ConvexImplicitPair returns an unconverged contact for a deep overlap: contact normal off the surface normal by " + pbt::str(dn) + ", contact point off the surface (implicit value " + pbt::str(f) + "); refineImplicitPair's convergence result is ignored");
     }});
-    c.requiredLabels = {"pair:halfspace-sphere", "pair:sphere-sphere", "pair:halfspace-ellipsoid", "pair:halfspace-brick", "pair:halfspace-mesh", "pair:sphere-mesh", "pair:mesh-mesh", "meshmesh:fine(>=2000 faces)", "meshmesh:buried>=900", "pair:sphere-ellipsoid", "pair:ellipsoid-ellipsoid", "overlapping", "separated", "mesh:faces-inside", "metamorphic:swap(tracker)", "metamorphic:swap(subsystem)", "metamorphic:rigid-motion", "cutoff>0"};
+    c.requiredLabels = {"pair:halfspace-sphere", "pair:sphere-sphere", "pair:halfspace-ellipsoid", "pair:halfspace-brick", "pair:halfspace-mesh", "pair:sphere-mesh", "pair:mesh-mesh", "meshmesh:fine(>=2000 faces)", "meshmesh:buried>=900", "surface:rotated-placement", "mesh:off-centre(bounding-sphere centre far from frame origin)", "pair:sphere-ellipsoid", "pair:ellipsoid-ellipsoid", "overlapping", "separated", "mesh:faces-inside", "metamorphic:swap(tracker)", "metamorphic:swap(subsystem)", "metamorphic:rigid-motion", "cutoff>0"};
     return c;
 }
 } // namespace
